@@ -1198,7 +1198,8 @@ func (so *signedObj[P]) leadingZeros(cl *collector, beh Behaviour, r *mrand.Rand
 		if o.verdict != "true" || !okRef || len(p.sig) != n {
 			cl.finding(fmt.Sprintf("leading-zero|%s|%s|lib=%s|ref=%v|len=%d", c.Alg, strings.SplitN(which, "-", 2)[0], o.verdict, okRef, len(p.sig)), &Finding{Cfg: c, Wire: hex.EncodeToString(wire),
 				Outcome: o.verdict, Detail: o.detail, Alters: "leading-zero-" + which,
-				What: fmt.Sprintf("a signature whose %s has a leading zero byte: length %d (must be %d), library verdict %s, reference verdict %v", which, len(p.sig), n, o.verdict, okRef)})
+				What: fmt.Sprintf("an honest %s signature with a leading zero byte in a component (%s): encoded length %d (RFC 8152 fixed width: %d), library verdict %s, reference verdict %v",
+					c.Alg, which, len(p.sig), n, o.verdict, okRef)})
 		}
 		// alterations on top of it: flipping the zero byte, stripping it
 		for _, alt := range []Alter{{Field: "sig", Value: "flipped"}, {Field: "siglen", Value: "short"}} {
